@@ -1,0 +1,46 @@
+//go:build verif
+
+package vgirpc
+
+import (
+	"encoding/json"
+	"errors"
+	"fmt"
+)
+
+func init() {
+	verifConstProviders = append(verifConstProviders, func() []VerifConst {
+		// Log levels ordered by the priority the compiled logLevelPriority assigns.
+		levels := []LogLevel{LogException, LogError, LogWarn, LogInfo, LogDebug, LogTrace}
+		byPrio := make([]string, len(levels))
+		for _, l := range levels {
+			p := logLevelPriority(l)
+			if p >= 0 && p < len(byPrio) {
+				byPrio[p] = string(l)
+			}
+		}
+		wrapped := fmt.Errorf("ctx: %w", &RpcError{Type: "T", Message: "m"}).Error()
+		inner := (&RpcError{Type: "T", Message: "m"}).Error()
+		return []VerifConst{
+			verifList("log_levels", byPrio),
+			verifNum("log_prio_unknown", int64(logLevelPriority(LogLevel("no-such-level")))),
+			verifBytes("level_trace", string(LogTrace)),
+			verifBytes("level_exception", string(LogException)),
+			// exception_type the compiled code reports for an untyped error
+			verifBytes("exc_runtime_error", VerifExceptionType(errors.New("x"))),
+			verifBytes("wrap_prefix", wrapped[:len(wrapped)-len(inner)]),
+			verifBytes("panic_prefix", "handler panicked: "),
+			verifBytes("schema_result_int64", "result:int64"),
+		}
+	})
+}
+
+// VerifExceptionType returns the exception_type the server would put on the
+// wire for err (debug off).
+func VerifExceptionType(err error) string {
+	var ex errorExtra
+	if json.Unmarshal([]byte(buildErrorExtra(err, false)), &ex) != nil {
+		return ""
+	}
+	return ex.ExceptionType
+}
